@@ -98,7 +98,7 @@ def one_effect(kind):
 
 PLACEMENTS = ["top", "then", "else", "loop1", "loop2", "loop3", "after_loop_return", "sub", "sub_in_branch",
               "aliased_second_sub", "aliased_nested_sub", "recursive_sub", "recursion_base_helper", "closure", "closure_in_branch",
-              "after_dynamic_call"]
+              "closure_rebound_in_loop", "after_dynamic_call"]
 
 
 def placement_program(kind, where):
@@ -162,6 +162,13 @@ def placement_program(kind, where):
         call = ("assign", "r", ("callv", ("var", "inner1"), [("var", "m")]))
         body = pre + [("assign", "inner1", ("lam", "inner1"))] + \
             ([call] if where == "closure" else [("if", ("var", "b"), [call], [("assign", "r", Lt(0))])])
+    elif where == "closure_rebound_in_loop":
+        # the variable that is called holds a quiet closure in the first iteration and the acting one from the second on
+        nested["step"] = fn("step", [("k", "int")], [("ret", P("add", ("var", "k"), ("var", "n")))])
+        nested["inner1"] = fn("inner1", [("k", "int")], [E, ("ret", P("add", ("var", "k"), ("var", "n")))])
+        body = pre + [("assign", "step", ("lam", "step")), ("assign", "inner1", ("lam", "inner1")), ("assign", "x", Lt(0))] + \
+            loop("k1", ("var", "n"), [("assign", "x", ("callv", ("var", "step"), [("var", "x")])), ("assign", "step", ("var", "inner1"))]) + \
+            [("ret", ("var", "x"))]
     elif where == "after_dynamic_call":
         subs = [fn("apply_fn", [("f", None), ("k", "int")], [("ret", ("callv", ("var", "f"), [("var", "k")]))])]
         nested["inner1"] = fn("inner1", [("k", "int")], [("ret", P("add", ("var", "k"), Lt(1)))])
@@ -186,7 +193,8 @@ def run(ctx):
     lines, rows = [], []
     kinds = ["fill", "measure", "top_hat_cz", "local_r", "local_rz", "global_r", "global_rz", "play", "play_group"]
     placed = [(k, w) for w in PLACEMENTS for k in (kinds if ctx.tier == "thorough" else ctx.rng.sample(kinds, 2))]
-    placed += [("nothing", w) for w in PLACEMENTS if w != "after_dynamic_call"]
+    # (a closure variable rebound in a loop is a dynamically resolved call: the query may refuse the quiet twin)
+    placed += [("nothing", w) for w in PLACEMENTS if w not in ("after_dynamic_call", "closure_rebound_in_loop")]
     programs = [placement_program(k, w) for k, w in placed]
     ctx.count("placement_programs", len(programs))
     for pi in range(n_prog + len(programs)):
@@ -217,6 +225,8 @@ def run(ctx):
                 break
         quiet = syntactically_quiet(fns)
         case = {"source": src[len(L.HDR):], "answer": ans}
+        if pi < len(programs):
+            case["placement"] = list(placed[pi])
         lines.append(f"(LANG (ana {L.sx_program(fns)} main))")
         rows.append((case, ans, acting, quiet))
         ctx.seen(src, deep_effect(fns))
@@ -241,6 +251,10 @@ def run(ctx):
         if ans != m:
             if ans == "no" and m == "yes" and acting is None:
                 ctx.count("benign_fold_difference")     # a statically dead branch was folded away
+            elif ans == "refused" and m == "yes" and case.get("placement", ["", ""])[1] == "closure_rebound_in_loop":
+                # the model resolves the call through a loop-carried closure variable to the closures it may hold; the
+                # analysis has no constant for a loop-carried value and refuses - the property allows either answer
+                ctx.count("benign_loop_carried_callee_refused")
             else:
                 ctx.disagree(case, ans, m, "has_quantum_runtime vs model")
     for k in (0, len(rows) // 2):
